@@ -494,6 +494,12 @@ fn sign_history(ctx: &mut Ctx) {
                 hist.push("unprotected(h)".into());
             }
             3 => {
+                // sometimes the very same signer twice: signers are a sequence, nothing is merged
+                if ctx.rng.chance(1, 3) {
+                    b = b.add_signature(sig.clone());
+                    recs.push(None);
+                    hist.push("add_signature(sig)".into());
+                }
                 b = b.add_signature(sig);
                 recs.push(None);
                 hist.push("add_signature(sig)".into());
@@ -897,7 +903,19 @@ fn enc_history(ctx: &mut Ctx, kind: usize) {
                 b = on!(b, x => x.ciphertext(c));
             }
             _ => {
-                let r = coset::CoseRecipientBuilder::new().unprotected(header(ctx)).ciphertext(small(ctx)).build();
+                let mut r = coset::CoseRecipientBuilder::new().unprotected(header(ctx)).ciphertext(small(ctx)).build();
+                if ctx.rng.chance(1, 4) {
+                    // a chain of nested recipients (depth 2-14) whose innermost header carries a
+                    // counter signature: recipient nesting and counter-signature nesting are unrelated
+                    let depth = 2 + ctx.rng.below(13);
+                    let cs = coset::CoseSignatureBuilder::new().protected(header(ctx)).signature(small(ctx)).build();
+                    let mut inner = coset::CoseRecipientBuilder::new().protected(coset::HeaderBuilder::new().key_id(vec![1]).add_counter_signature(cs).build()).ciphertext(small(ctx)).build();
+                    for _ in 0..depth {
+                        inner = coset::CoseRecipientBuilder::new().unprotected(coset::HeaderBuilder::new().key_id(vec![2]).build()).add_recipient(inner).build();
+                    }
+                    r = inner;
+                    hist.push(format!("(recipient chain of depth {} with a counter signature innermost)", depth));
+                }
                 b = match b {
                     B::E(x) => B::E(x.add_recipient(r)),
                     B::R(x) => B::R(x.add_recipient(r)),
